@@ -7,9 +7,13 @@ CONSTANTS
   MaxEvents = 2
   MaxTicks = 3
   MaxItems = 2
+  PurgeNotifies = TRUE
   Fixed = TRUE
 SPECIFICATION Spec
 INVARIANT Refines
 INVARIANT NoEarlyPurge
+INVARIANT LiveMatches
+INVARIANT Alternates
+VIEW view
 CONSTRAINT Bound
 CHECK_DEADLOCK FALSE
